@@ -66,8 +66,10 @@ def Sup(e):
     return ('sup', e)
 
 
-def Str(s):
-    return ('str', s)
+def Str(s, spelling=None):
+    """string match; `spelling` = the source text between the quotes when it
+    differs from the default rendering (e.g. written with \\x escapes)"""
+    return ('str', s) if spelling is None else ('str', s, spelling)
 
 
 def Re(p):
@@ -139,7 +141,7 @@ def render(e):
             return render(inner) + '-'
         return atom(inner) + '-'
     if k == 'str':
-        return _q(e[1])
+        return "'" + e[2] + "'" if len(e) > 2 else _q(e[1])
     if k == 're':
         return '/' + e[1].replace('/', '\\/') + '/'
     if k == 'ref':
